@@ -25,14 +25,22 @@ class Ang:
     def radians(s):
         return Ang(s.d, s.c, s.s, 'rad')
 
+    # numpy's cos/sin/tan read their argument as RADIANS.  An angle that is still a number of degrees (unit 'deg') is, for them, the
+    # number d taken as radians: an unrelated angle (a unit pair of its own per term), not the angle this object stands for.
+    def _as_radians_pair(s):
+        if s.unit == 'rad':
+            return s.c, s.s
+        return trig_pair(SR(s.d))
+
     def cos(s):
-        return SR(s.c)
+        return SR(s._as_radians_pair()[0])
 
     def sin(s):
-        return SR(s.s)
+        return SR(s._as_radians_pair()[1])
 
     def tan(s):
-        return SR(s.s) / SR(s.c)
+        c_, s_ = s._as_radians_pair()
+        return SR(s_) / SR(c_)
 
     def __neg__(s):
         return Ang(-s.d, s.c, -s.s, s.unit)
@@ -47,6 +55,9 @@ class Ang:
 
     def __add__(s, o):
         if isinstance(o, Ang):
+            if s.unit != o.unit:
+                # a number of degrees plus a number of radians: the sum is a plain number, no longer this angle
+                return s.value() + o.value()
             return Ang(s.d + o.d, s.c * o.c - s.s * o.s, s.s * o.c + s.c * o.s, s.unit)
         if isinstance(o, (int, float)):
             if s.unit == 'deg' and o % 90 == 0:
